@@ -161,14 +161,7 @@ pub fn check_one(ctx: &mut Ctx, src: &str, gram: Gram, incomplete: bool, raw: bo
             if text.contains('`') {
                 ctx.count("trees_with_kept_directives", 1);
             }
-            // kinds seen (sampled: every 8th tree)
-            if ctx.counters.get("trees").copied().unwrap_or(0) % 8 == 1 {
-                for n in &tree {
-                    if !matches!(n, RefNode::Locate(_)) {
-                        ctx.seen("node_kinds", &n.to_string());
-                    }
-                }
-            }
+            ctx.seen_kinds(&tree);
             ctx.nontrivial(hash_strs(&[src, if gram == Gram::Sv { "sv" } else { "lib" }, if incomplete { "i" } else { "s" }]));
             if ctx.want_sample() {
                 ctx.sample(
